@@ -14,6 +14,10 @@
 
    CInst: one instantiation attempt. *)
 From LP Require Import Auth.
+(* Part 1 (the vending minters' full handler model) is tied through the sale-world
+   vocabulary: the harness prints its sender sweeps over the reserved handlers as `scase`
+   terms checked by SaleCorr.sale_check (files C05v_cases_*.v) *)
+From LP Require SaleCorr.
 Local Open Scope N_scope.
 
 Definition opt_addr_eqb := option_eqb N.eqb.
